@@ -334,6 +334,7 @@ struct Cx {
     notes: Vec<String>,
     /// impl key of the function being translated ("Bitfield<Variable<N>>"), "" for a free function
     cur_imp: String,
+    cur_tr: String,
     /// numeric type parameters in scope (`N: Unsigned`): `N::to_usize()` is the variable `tN`
     tparams: Vec<String>,
     /// local variables and parameters that hold a value of a translated record type
@@ -456,6 +457,8 @@ fn self_ty_coq(imp: &str) -> Option<String> {
         "Option<T>" => "(option A_T)".to_string(),
         // a `BTreeSet<T>` is its elements in ascending order (how `iter()` yields them)
         "Vec<T>" | "SmallVec<[T;N]>" | "BTreeSet<T>" => "(list A_T)".to_string(),
+        // a `BTreeMap<K, V>` is its entries in ascending key order
+        "BTreeMap<K,V>" => "(list (A_K * A_V))".to_string(),
         "Arc<T>" | "&T" => "A_T".to_string(),
         _ => return None,
     })
@@ -577,7 +580,7 @@ fn int_lit(e: &Expr) -> Option<u128> {
 impl Cx {
     fn new(records: HashMap<String, Vec<String>>, res_fns: HashMap<String, String>) -> Self {
         Cx { fresh: 0, binds: vec![], self_rec: None, records, res_fns, fn_params: vec![], aliases: HashMap::new(), u8ctx: false, mut_methods: vec![], notes: vec![],
-             cur_imp: String::new(), tparams: vec![], var_rec: HashMap::new(), fns: HashMap::new(), ret_option: false, field_types: HashMap::new(), ret_none: "Ok None".to_string(), dict_params: vec![], dict_used: vec![], list_vars: vec![], mut_param: None, borrows: HashMap::new(), dict_bounds: HashMap::new(), var_ty: HashMap::new(), expected_ty: None, dict_sigs: HashMap::new() }
+             cur_imp: String::new(), cur_tr: String::new(), tparams: vec![], var_rec: HashMap::new(), fns: HashMap::new(), ret_option: false, field_types: HashMap::new(), ret_none: "Ok None".to_string(), dict_params: vec![], dict_used: vec![], list_vars: vec![], mut_param: None, borrows: HashMap::new(), dict_bounds: HashMap::new(), var_ty: HashMap::new(), expected_ty: None, dict_sigs: HashMap::new() }
     }
 
     fn var(&mut self, hint: &str) -> String {
@@ -764,6 +767,12 @@ impl Cx {
                 };
                 Ok(format!("(fun {} => {})", names.join(" "), body))
             }
+            Expr::Path(p) if p.qself.is_some() && path_last(&p.path) == "from_ssz_bytes" && want == Kind::Comp
+                && tuple_components(&norm_type(&p.qself.as_ref().unwrap().ty)).is_some() => {
+                // `<(K, V)>::from_ssz_bytes`: the tuple impl at the caller's type parameters
+                let ty = norm_type(&p.qself.as_ref().unwrap().ty);
+                self.td_fn(&ty, "from_ssz_bytes")
+            }
             Expr::Path(p) => {
                 let name = path_str(&p.path);
                 if p.path.segments.len() == 2 && self.dict_params.contains(&p.path.segments[0].ident.to_string()) {
@@ -844,6 +853,11 @@ impl Cx {
         if let Some(k) = ty.strip_prefix("[u8;").and_then(|x| x.strip_suffix(']')) {
             return Ok(format!("array_{}_{} {}", short, m, k));
         }
+        if let Some(cs) = tuple_components(&ty) {
+            let callee = format!("tuple{}_{}_{}", cs.len(), short, m);
+            let args = self.tuple_dict_args(&callee, &cs)?;
+            return Ok(format!("{} {}", callee, args.join(" ")));
+        }
         for (pre, name) in [("Vec<", "vec"), ("Option<", "option")] {
             if ty.starts_with(pre) && ty.ends_with('>') {
                 return Ok(if m == "is_ssz_fixed_len" { format!("{}_{}_is_ssz_fixed_len", name, short) } else { default_fixed_len.to_string() });
@@ -884,6 +898,11 @@ impl Cx {
         if let Some(k) = ty.strip_prefix("[u8;").and_then(|x| x.strip_suffix(']')) {
             return Ok(format!("(array_{} {})", m, k));
         }
+        if let Some(cs) = tuple_components(&ty) {
+            let callee = format!("tuple{}_{}", cs.len(), m);
+            let args = self.tuple_dict_args(&callee, &cs)?;
+            return Ok(format!("({} {})", callee, args.join(" ")));
+        }
         for (pre, name) in [("Vec<", "vec"), ("Option<", "option")] {
             if let Some(inner) = ty.strip_prefix(pre).and_then(|x| x.strip_suffix('>')) {
                 let callee = format!("{}_{}", name, m);
@@ -913,6 +932,26 @@ impl Cx {
         let mut all = vec![];
         for member in self.dict_sigs.get(coq).cloned().unwrap_or_default() {
             let (tp, mem) = member.split_once('_').map(|(a, b)| (a.to_string(), b.to_string())).unwrap_or_default();
+            if self.cur_imp == "BTreeMap<K,V>" && tp == "T" {
+                // the items of a map are its entries `(K, V)`: the tuple impl at the map's type parameters
+                match mem.as_str() {
+                    "is_ssz_fixed_len" | "ssz_fixed_len" => {
+                        let tr = self.cur_tr.clone();
+                        let c = self.td_meta("(K,V)", &tr, &mem)?;
+                        all.push(self.bind(c, "m"));
+                    }
+                    "ssz_append" | "ssz_bytes_len" | "from_ssz_bytes" => all.push(self.td_fn("(K,V)", &mem)?),
+                    other => return Err(format!("cannot instantiate the member {} of {} at (K,V)", other, coq)),
+                }
+                continue;
+            }
+            if self.cur_imp == "BTreeMap<K,V>" && mem == "try_from_iter" {
+                if !self.dict_used.contains(&("K".to_string(), "cmp".to_string())) {
+                    self.dict_used.push(("K".to_string(), "cmp".to_string()));
+                }
+                all.push("(btreemap_try_from_iter K_cmp)".to_string());
+                continue;
+            }
             if self.dict_params.contains(&tp) {
                 if !self.dict_used.contains(&(tp.clone(), mem.clone())) {
                     self.dict_used.push((tp.clone(), mem.clone()));
@@ -930,6 +969,26 @@ impl Cx {
             } else {
                 return Err(format!("cannot supply {} to the generic function {}", member, coq));
             }
+        }
+        Ok(all)
+    }
+
+    /// A translated tuple impl (`tuple2_..`, type parameters A, B, ..) instantiated at a tuple of the caller's type
+    /// parameters: the member `B_ssz_fixed_len` is the caller's `V_ssz_fixed_len` when the tuple is `(K, V)`.
+    fn tuple_dict_args(&mut self, callee: &str, cs: &[String]) -> R<Vec<String>> {
+        let sig = self.dict_sigs.get(callee).cloned().ok_or_else(|| format!("the tuple function {} is not translated", callee))?;
+        let mut all = vec![];
+        for member in sig {
+            let (tp, mem) = member.split_once('_').map(|(a, b)| (a.to_string(), b.to_string())).unwrap_or_default();
+            let idx = (tp.as_bytes().first().copied().unwrap_or(b'A') - b'A') as usize;
+            let ct = cs.get(idx).cloned().ok_or_else(|| format!("{} has no component for {}", callee, member))?;
+            if !self.dict_params.contains(&ct) {
+                return Err(format!("component {} of a tuple is not a type parameter of the caller", ct));
+            }
+            if !self.dict_used.contains(&(ct.clone(), mem.clone())) {
+                self.dict_used.push((ct.clone(), mem.clone()));
+            }
+            all.push(format!("{}_{}", ct, mem));
         }
         Ok(all)
     }
@@ -1290,7 +1349,7 @@ impl Cx {
                     // `<_>::from_ssz_bytes(bytes)` (the type is the expected one)
                     if p.qself.is_some() && ty != "Self" && !user().structs.is_empty() | !user().enums.is_empty() {
                         let cty = if ty == "_" { self.expected_ty.clone().ok_or("`<_>::f()` without an expected type")? } else { ty.clone() };
-                        let trn = tr.clone().unwrap_or_else(|| if matches!(name.as_str(), "from_ssz_bytes") { "Decode".to_string() } else { "Encode".to_string() });
+                        let trn = tr.clone().unwrap_or_else(|| if matches!(name.as_str(), "from_ssz_bytes") { "Decode".to_string() } else if !self.cur_tr.is_empty() { self.cur_tr.clone() } else { "Encode".to_string() });
                         if name == "default" && c.args.is_empty() {
                             // `<_>::default()` of a skipped field: the `Default` value of the field's type
                             let coq = rty_coq(&cty).ok_or(format!("default() of the type {}", cty))?;
@@ -1679,6 +1738,12 @@ impl Cx {
         // `xs.chunks(n).map(f).collect()` into a `Result<Vec<_>, _>`: stops at the first error
         if name == "collect" {
             let (r, k) = self.expr(&m.receiver)?;
+            if self.cur_imp == "BTreeMap<K,V>" && k == Comp {
+                if !self.dict_used.contains(&("K".to_string(), "cmp".to_string())) {
+                    self.dict_used.push(("K".to_string(), "cmp".to_string()));
+                }
+                return Ok((format!("omap (btreemap_from_iter K_cmp) ({})", r), Comp));
+            }
             if self.cur_imp == "BTreeSet<T>" && k == Comp {
                 // into a `Result<BTreeSet<T>, _>`: the items up to the first error, then `from_iter` under `T: Ord`
                 if !self.dict_used.contains(&("T".to_string(), "cmp".to_string())) {
@@ -2920,6 +2985,7 @@ fn main() {
     // macros with repetitions: tuples); every impl of the expansion, whatever module it sits in, is made a
     // top-level item of a pseudo-file
     let crate_exp: Option<String> = argv.iter().position(|a| a == "--crate-expanded").and_then(|i| argv.get(i + 1).cloned());
+    let mut late_targets: Vec<Target> = vec![];
     if let Some(path) = &crate_exp {
         let src = std::fs::read_to_string(path).unwrap_or_default();
         match syn::parse_file(&src) {
@@ -2943,6 +3009,12 @@ fn main() {
                 collect(&f.items, &mut flat);
                 let file = syn::File { shebang: None, attrs: vec![], items: flat };
                 files.insert("<crate expansion>".to_string(), file);
+                for (tr, short, fns) in [("Encode", "enc", vec!["is_ssz_fixed_len", "ssz_bytes_len", "ssz_append"]), ("Decode", "dec", vec!["is_ssz_fixed_len", "from_ssz_bytes"])] {
+                    for name in fns {
+                        let coq = if name == "is_ssz_fixed_len" { format!("btreemap_{}_{}", short, name) } else { format!("btreemap_{}", name) };
+                        late_targets.push(Target { file: "<crate expansion>", imp: "BTreeMap<K,V>", tr, name, coq: leak(coq) });
+                    }
+                }
                 for (arity, imp) in [(2, "(A,B)"), (3, "(A,B,C)"), (4, "(A,B,C,D)")] {
                     for (tr, short, fns) in [("Encode", "enc", vec!["is_ssz_fixed_len", "ssz_fixed_len", "ssz_bytes_len", "ssz_append"]), ("Decode", "dec", vec!["is_ssz_fixed_len", "ssz_fixed_len", "from_ssz_bytes"])] {
                         for name in fns {
@@ -2955,6 +3027,8 @@ fn main() {
             Err(e) => println!("(* rs2v: cannot parse the crate expansion: {} *)", e),
         }
     }
+    // the map impls use the tuple impls: after them
+    dyn_targets.extend(late_targets);
     let all_targets: Vec<&Target> = TARGETS.iter().chain(dyn_targets.iter()).collect();
     let _ = &dyn_records;
     let mut wanted: Vec<&str> = TARGETS.iter().map(|t| t.file).collect();
@@ -3224,6 +3298,7 @@ fn main() {
         cx.mut_methods = mut_methods.clone();
         cx.fns = fns.clone();
         cx.cur_imp = imp_key.clone();
+        cx.cur_tr = t.tr.to_string();
         cx.tparams = tparams.clone();
         cx.dict_params = dict_params.clone();
         cx.dict_sigs = dict_sigs.clone();
